@@ -48,6 +48,7 @@ def entry_points(ctx):
                     expanded.add(a["path"])
                 elif a.get("k") == "ref" and a.get("to", {}).get("k") == "closure":
                     expanded.add(a["to"]["path"])
+    exported_traits = {a["path"] for a in fx.api if a["kind"] == "Trait" and a["exported"]}
     out = []
     for f in fx.fn_list:
         if f.get("kind") not in ("Fn", "AssocFn", "Closure") or fx.fn(f["path"]) is not f:
@@ -60,14 +61,42 @@ def entry_points(ctx):
         trait_method = bool(f.get("impl_trait")) or f.get("parent_kind") == "Trait"
         if not (pub or trait_method or f.get("kind") == "Closure"):
             continue
+        if trait_method and not pub:
+            # a method of a crate-private helper trait on a type that is not a handle (no invariants to start from): only reachable through this crate's own
+            # callers, where it is expanded with their facts
+            tr_ = f.get("impl_trait") or f.get("trait_item_of") or ""
+            if tr_ and not tr_.startswith("core::") and tr_ not in exported_traits and st.get("path") not in handle_adts \
+                    and tr_ in ("iter::IteratorItem",):
+                continue
         if st.get("path") == "ops::temp::TempValue":
             for im in op_impls:
                 facts, _ = range_handle_invariants(ctx, im["self_ty"]["path"], prefix=("op",))
                 out.append((path, {ctx.tparam(path, 0): im["self_ty"]}, facts, "Op=" + im["self_ty"]["path"].split("::")[-1]))
             continue
+        if st.get("path") == "ops::iter::Iter" and f.get("self_kind") in ("ref", "mut", "value"):
+            # the wrapper around a range handle (`Iter<I: Iterable>(I)`): once per range handle, from that handle's invariants
+            its = [im for im in fx.impls_of("ops::iter::Iterable") if im["self_ty"].get("k") == "adt"]
+            pn = next((a["name"] for a in st.get("args", []) if a.get("k") == "param"), None)
+            conc = next((a for a in st.get("args", []) if a.get("k") == "adt"), None)
+            done = False
+            if pn is not None:
+                for im in its:
+                    facts, _ = range_handle_invariants(ctx, im["self_ty"]["path"], prefix=("0",))
+                    out.append((path, {pn: im["self_ty"]}, facts, "I=" + im["self_ty"]["path"].split("::")[-1]))
+                    done = True
+            elif conc is not None and conc.get("path") in handle_adts:
+                # an impl for one particular handle (`impl Iter<Drain<..>>`): that handle's invariants, nothing to substitute
+                facts, _ = range_handle_invariants(ctx, conc["path"], prefix=("0",))
+                out.append((path, None, facts, "I=" + conc["path"].split("::")[-1]))
+                done = True
+            if done:
+                continue
         facts = None
         if st.get("path") in handle_adts and f.get("self_kind") in ("ref", "mut", "value"):
             facts, _ = range_handle_invariants(ctx, st["path"])
+        elif st.get("path") == "iter::Iter" and f.get("self_kind") in ("ref", "mut"):
+            # the cursor iterator's invariant index <= end (established by its constructor, preserved by every method: R-ITER)
+            facts = frozenset([cmp_fact("Le", Poly.atom(("init", (("P", 1), ("index",)), 0)), Poly.atom(("init", (("P", 1), ("end",)), 0)))])
         out.append((path, None, facts, ""))
     ctx._entry_points = out
     return out
@@ -287,6 +316,21 @@ POINTER_FIELDS = {"COPY": ("src", "dst"), "MOVE_INTO": ("out",), "CLONE_INTO": (
                   "WRITE": ("dst",), "VIEW": ("ptr",), "SWAP": ("a", "b")}
 
 
+def _reference_handles(ctx):
+    """handle types that refer to an element without owning it: a field `ManuallyDrop<element::ElementPointer<..>>`"""
+    c = ctx.__dict__.get("_refhandles")
+    if c is None:
+        c = set()
+        for p, a in ctx.fx.adts.items():
+            for v in a["variants"]:
+                for fl in v["fields"]:
+                    t = fl["ty"]
+                    if t.get("k") == "adt" and t.get("path") == "core::mem::ManuallyDrop" and any(x.get("path") == "element::ElementPointer" for x in t.get("args", []) if isinstance(x, dict)):
+                        c.add(p)
+        ctx.__dict__["_refhandles"] = c
+    return c
+
+
 def r_order(ctx):
     res = RuleResult("R-ORDER")
     for fpath, subst, ef, label in entry_points(ctx):
@@ -336,7 +380,7 @@ def r_order(ctx):
                         continue
                     res.inst(sample={"function": fpath, "P2": "user code %s after shift" % u.kind, "at": u.where(), "arm": an})
                     L = len_at(u, lp)
-                    lo_ok = implies(u["facts"], cmp_fact("Le", L, s[1])) and implies(u["facts"], cmp_fact("Le", L, d[1]))
+                    lo_ok = (isinstance(L, Poly) and not L.m) or (implies(u["facts"], cmp_fact("Le", L, s[1])) and implies(u["facts"], cmp_fact("Le", L, d[1])))   # LEN == 0 hides every slot
                     if lo_ok:
                         res.ok()
                     else:
@@ -353,11 +397,29 @@ def r_order(ctx):
                 if lp is None:
                     continue
                 res.inst(sample={"function": fpath, "P3": "destroy from slot %s" % s[1], "LEN": str(len_at(d, lp)), "arm": an})
-                if implies(d["facts"], cmp_fact("Le", len_at(d, lp), s[1])):
+                L3 = len_at(d, lp)
+                if (isinstance(L3, Poly) and not L3.m) or implies(d["facts"], cmp_fact("Le", L3, s[1])):
                     res.ok()
                 else:
                     res.fail(d.node.inst.path(), "P3-destroy-visible/%s" % an, "elements from slot %s are destroyed while still inside the visible length %s (%s)"
                              % (s[1], len_at(d, lp), d.where()), span=span_of_effect(d))
+            # ---- P3b: a handle that only REFERS to a live, visible element (ElementRef / ElementMut: the element pointer sits in ManuallyDrop) destroys that
+            # element in place only after the vector's length was lowered (the element and what follows it hidden): the pointer is opaque, so the lowering
+            # is required as such - without it a panic in the destructor or in what refills the slot leaves a destroyed element visible
+            stp = (f or {}).get("impl_self_ty", {}).get("path") if f else None
+            if stp in _reference_handles(ctx):
+                lnodes = {e.gid for e in lstores}
+                for d in [e for e in effs if e.kind == "DESTROY"]:
+                    s = slot_of(d["ptr"])
+                    if s and s[1] is not None:
+                        continue
+                    res.inst(sample={"function": fpath, "P3b": "destroy through a reference handle", "arm": an})
+                    if every_path_to(I, d.gid, lambda g: g in lnodes):
+                        res.ok()
+                    else:
+                        res.fail(d.node.inst.path(), "P3-destroy-visible-through-handle/%s" % an, "%s destroys the element it refers to while the element is still inside "
+                                 "the vector's visible length (no length store precedes the destructor call): a panic in the destructor, or in whatever refills "
+                                 "the slot, leaves a destroyed element visible" % fpath, span=span_of_effect(d))
             # ---- P4: handle consumption order
             cons = [e for e in effs if e.kind == "CONSUME"]
             if cons:
@@ -520,7 +582,27 @@ def r_forget(ctx):
             if not (user_value or owning_handle):
                 continue
             res.inst(sample={"function": f["path"], "disarms": t.get("s"), "through": SUPP[tm["callee"]["path"]], "inside_move_into": is_protocol}, func=f["path"])
-            if is_protocol:
+            cancels = False
+            if owning_handle and not is_protocol:
+                # forgetting a removal handle is also how a removal is CANCELLED: legitimate when the length lowered at its creation is stored back on
+                # every path before the handle is disarmed (the element is visible again, nothing was moved)
+                ents = [(s_, e_) for (p_, s_, e_, l_) in entry_points(ctx) if p_ == f["path"]]
+                if not ents and f.get("impl_self_ty", {}).get("path") == "ops::temp::TempValue":
+                    # a crate-private method of the removal handle: once per operation kind, as the public ones are
+                    for im_ in fx.impls_of("ops::temp::Operation"):
+                        if im_["self_ty"].get("k") == "adt":
+                            fa_, _r = range_handle_invariants(ctx, im_["self_ty"]["path"], prefix=("op",))
+                            ents.append(({ctx.tparam(f["path"], 0): im_["self_ty"]}, fa_))
+                ents = ents or [(None, None)]
+                all_arms = [x for (s_, e_) in ents for x in (ctx.arms(f["path"], subst=s_, entry_facts=e_) or [])]
+                for tt_, I_ in all_arms:
+                    fg = I_.all_effects(("FORGET", "MD_NEW"))
+                    ln = {e_.gid for e_ in I_.all_effects(("STORE",)) if is_len_path(e_["path"])}
+                    cancels = bool(fg) and bool(ln) and all(every_path_to(I_, e_.gid, lambda g: g in ln) for e_ in fg) \
+                        and not I_.all_effects(("COPY", "DESTROY", "MOVE_INTO"))
+                    if not cancels:
+                        break
+            if is_protocol or cancels:
                 res.ok()
             else:
                 res.fail(f["path"], "forget-bypasses-move_into", "%s of a value of type %s outside AnyValueSizeless::move_into: what the value's own move_into does on "
@@ -584,14 +666,49 @@ def r_forget(ctx):
 
 
 def _holds_shared_ref(a):
+    """the value only BORROWS what it stands for: a `&T` field, or a shared-borrow marker (`PhantomData<&T>`) next to fields without drop glue
+    (`ManuallyDrop<handle>`, raw pointers, plain data) - it never owns the bytes it would hand over"""
+    marker = False
+    others_inert = True
     for v in a.get("variants", []):
         for f in v["fields"]:
-            if f["ty"].get("k") == "ref" and not f["ty"].get("mut"):
+            t = f["ty"]
+            if t.get("k") == "ref" and not t.get("mut"):
                 return True
-    return False
+            if t.get("k") == "adt" and t.get("path") == "core::marker::PhantomData":
+                if any(x.get("k") == "ref" and not x.get("mut") for x in t.get("args", [])):
+                    marker = True
+                continue
+            if t.get("k") == "adt" and t.get("path") == "core::mem::ManuallyDrop":
+                continue
+            if t.get("k") in ("ptr", "uint", "int", "bool"):
+                continue
+            others_inert = False
+    return marker and others_inert
 
 
 # ------------------------------------------------------------------------------------------------ R-EXPANDGUARD
+
+def _at_least_one(p, facts):
+    """the requested additional count is >= 1 whatever user code reports: a positive constant, `x.saturating_add(c)` / `x + c` with c >= 1 over non-negative
+    terms, or a dominating fact"""
+    c = p.const_value()
+    if c is not None:
+        return c >= 1
+    if implies(facts, ("ge0", p - Poly.const(1))):
+        return True
+    if not p.nonneg_coeffs():
+        return False
+    if p.m.get((), 0) >= 1:
+        return True
+    for a in p.atoms():
+        if isinstance(a, tuple) and a and a[0] == "saturating_add":
+            for x in a[1:3]:
+                cv = as_poly(x).const_value()
+                if cv is not None and cv >= 1:
+                    return True
+    return False
+
 
 def r_expandguard(ctx):
     res = RuleResult("R-EXPANDGUARD")
@@ -611,8 +728,61 @@ def r_expandguard(ctx):
                     lp = len_path_of_mem(r["mem"])
                     L = len_at(r, lp) if lp else None
                     ok = L is not None and implies(r["facts"], cmp_fact("Le", cap, L)) and implies(r["facts"], ("ge0", n - Poly.const(1)))
+                    if not ok:
+                        # inside a loop the length / capacity are loop-carried values; a capacity test on such values is there (some fact relates a capacity
+                        # of this storage to a loop-carried length) but cannot be matched term by term: not decided
+                        capn = {a_[1] for a_ in cap.atoms() if isinstance(a_, tuple) and a_ and a_[0] == "CAP"}
+                        guarded = any(ff[0] in ("eq0", "ge0") and any(isinstance(a_, tuple) and a_ and a_[0] == "CAP" and a_[1] in capn for a_ in ff[1].atoms())
+                                      and any(isinstance(a_, tuple) and a_ and a_[0] == "phi" for a_ in ff[1].atoms()) for ff in r["facts"] if len(ff) == 2 and isinstance(ff[1], Poly))
+                        if guarded:
+                            ok = True
+                            note = "%s: expand inside a loop, guard on loop-carried values - not decided" % r.where()
+                            if note not in res.notes:
+                                res.notes.append(note)
                 sites.setdefault(key, []).append((ok, fpath, r))
-    for (fn, line), lst in sorted(sites.items(), key=lambda kv: (kv[0][0], kv[0][1] or 0)):
+                # a reservation of a fixed number of slots made by an operation that is not itself a capacity request is a promise to fill them: a path that
+                # returns without writing anything demanded capacity for nothing - on a full fixed-capacity vector that is a panic where the operation
+                # would have been a no-op (an `extend` that reserves before it knows whether the iterator has another item)
+                ef_ = ctx.fn(fpath) or {}
+                lp = len_path_of_mem(r["mem"])
+                L = len_at(r, lp) if lp else None
+                add = (n + cap - as_poly(L)) if (L is not None and capatom in n.atoms()) else (n if L is not None else None)
+                if ef_.get("name") not in ("reserve", "reserve_exact", "with_capacity", "with_capacity_in", "expand", "expand_exact", "build_with_size") \
+                        and add is not None and _at_least_one(add, r["facts"]):
+                    wnodes = {e.gid for e in I.all_effects(("WRITE", "MOVE_INTO", "CLONE_INTO", "CLONE"))}
+                    wnodes |= {e.gid for e in I.all_effects(("COPY",)) if slot_of(e["dst"]) is not None}
+                    rets = {e.gid for e in I.all_effects(("RETURN",))}
+                    after = I.reachable_from(r.gid)
+                    # a reservation made once, ahead of a loop that writes: the loop runs as often as was reserved for (its count is not decided here);
+                    # a reservation inside the loop itself is judged per iteration
+                    looped = r.gid not in after and any(w in after and w in I.reachable_from(w) for w in wnodes)
+                    work, seen_n, idle = ([] if looped else [r.gid]), {r.gid}, None
+                    while work and idle is None:
+                        g = work.pop()
+                        for s2 in I._succs(g):
+                            if s2 in seen_n or s2 in wnodes:
+                                continue
+                            if s2 in rets:
+                                idle = s2
+                                break
+                            seen_n.add(s2)
+                            work.append(s2)
+                    key2 = (r.node.inst.path(), r.get("line"), "fill")
+                    sites.setdefault(key2, []).append((idle is None, fpath, r))
+    for key_, lst in sorted(sites.items(), key=lambda kv: (kv[0][0], kv[0][1] or 0, len(kv[0]))):
+        if len(key_) == 3:
+            fn, line, _ = key_
+            res.inst(sample={"fixed_reservation_site": fn, "line": line, "filled_on_every_path": all(x[0] for x in lst)}, func=fn)
+            bad = [x for x in lst if not x[0]]
+            if not bad:
+                res.ok()
+            else:
+                ok, entry, r = bad[0]
+                res.fail(entry, "reservation-without-write", "%s reserves room for a fixed number of elements and can then return without writing any: on a vector "
+                         "that is exactly full (a fixed-capacity backend at its capacity) the reservation panics although the operation adds nothing" % entry,
+                         span=span_of_effect(r))
+            continue
+        fn, line = key_
         res.inst(sample={"expand_site": fn, "line": line, "contexts": len(lst), "guarded_in_all": all(x[0] for x in lst)}, func=fn)
         bad = [x for x in lst if not x[0]]
         if not bad:
